@@ -350,7 +350,7 @@ def startLoop (cmp : K â†’ K â†’ Int) (start : K) : List (List K) â†’ Option K â
 /-- `RangeWithStart(start, f)` (`end_ = none`) and `RangeWithRange(start, end, f)`. -/
 def SL.rangeFrom (cfg : Cfg K V) (s : SL K V) (start : K) (end_ : Option K) (stop : Nat) :
     Option (List (K Ã— V)) :=
-  if cfg.fixed && s.len == 0 then some []
+  if cfg.fixed && cfg.lazy && s.len == 0 then some []      -- the guard exists in `SkipList` only
   else
     match s.levelsDown with
     | none => none
